@@ -208,7 +208,7 @@ def check_object(ctx, pms, fmt, D, order_seed, workdir, rng, main_variant=None, 
     return n, fired_points, obj, good_bytes
 
 
-ODD_VALUES = [b"bytes", float("inf"), float("nan"), 5, 1.5, None, ["x"], {"k": b"v"}, set([1]), "two\nlines", "form\x0cfeed", ("t",), object]
+ODD_VALUES = ["1\n", b"bytes", float("inf"), float("nan"), 5, 1.5, None, ["x"], {"k": b"v"}, set([1]), "two\nlines", "form\x0cfeed", ("t",), object]
 
 
 def odd_mutations(fmt, obj):
